@@ -430,15 +430,34 @@ func BuildReplay(pc *PathCtx, model map[string]uint64) *ReplayInfo {
 	}
 	// the engine mutated update targets: arguments are rebuilt from the pre-state where we have it
 	params := pc.T.Sig.Params()
-	for i, a := range pc.Args {
-		if i == pc.TgtIdx {
-			ri.Unsupported = "update methods are replayed through their post-state only"
-		}
+	pre := pc.ArgsPre
+	if len(pre) != len(pc.Args) {
+		pre = pc.Args
+	}
+	for i, a := range pre {
 		ri.ArgExprs = append(ri.ArgExprs, b.expr(a, params.At(i).Type()))
 	}
-	for _, c := range pc.Calls.Calls {
-		_ = c
-		ri.Unsupported = "path calls custom functions (havoc stubs): native replay not available"
+	// results of the custom functions, in call order, programmed through VerifHook
+	for k, c := range pc.Calls.Calls {
+		if c.Fn.Pkg == nil || c.Fn.Pkg.Pkg.Path() != inPath {
+			ri.Unsupported = "custom function of another package (" + c.Name + "): native replay not available"
+			break
+		}
+		var as []string
+		res := c.Fn.Signature.Results()
+		oi := 0
+		for j := 0; j < res.Len(); j++ {
+			rt := res.At(j).Type()
+			if isErrorType(rt) {
+				if c.Failed {
+					as = append(as, fmt.Sprintf("*(outs[%d].(*error)) = fmt.Errorf(\"custom failure %d\")", j, k))
+				}
+				continue
+			}
+			as = append(as, fmt.Sprintf("*(outs[%d].(*%s)) = %s", j, b.typ(rt), b.expr(c.Result, rt)))
+			oi++
+		}
+		ri.Hooks = append(ri.Hooks, fmt.Sprintf("case %d:\n\t\t\tif name != %q {\n\t\t\t\tfmt.Println(\"VERIF-REPLAY-MISMATCH call\", calls, name)\n\t\t\t}\n\t\t\t%s", k, c.Name, strings.Join(as, "\n\t\t\t")))
 	}
 	ri.Stmts = b.stmts
 	if strings.Contains(strings.Join(append(ri.Stmts, ri.ArgExprs...), " "), "UNSUPPORTEDPKG_") {
@@ -674,6 +693,13 @@ func (ri *ReplayInfo) TestSource(cv *Conv, t *Target) string {
 		names = append(names, n)
 	}
 	call = strings.Replace(call, "("+args+")", "("+strings.Join(names, ", ")+")", 1)
+	if len(ri.Hooks) > 0 {
+		sb.WriteString("\tcalls := 0\n\tin.VerifHook = func(name string, outs ...any) {\n\t\tswitch calls {\n")
+		for _, h := range ri.Hooks {
+			sb.WriteString("\t\t" + h + "\n")
+		}
+		sb.WriteString("\t\tdefault:\n\t\t\tfmt.Println(\"VERIF-REPLAY-MISMATCH extra call\", name)\n\t\t}\n\t\tcalls++\n\t}\n")
+	}
 	sb.WriteString("\tids := &verifIDs{ptr: map[uintptr]int{}, mp: map[uintptr]int{}}\n")
 	var argPtrs []string
 	for _, n := range names {
@@ -759,6 +785,9 @@ func (d *Driver) Replay(f *Finding, dir string) (string, string) {
 		if strings.HasPrefix(line, "VERIF-ARGS") {
 			gotArgs = strings.TrimSpace(strings.TrimPrefix(line, "VERIF-ARGS"))
 		}
+	}
+	if strings.Contains(output, "VERIF-REPLAY-MISMATCH") {
+		return "not-reproduced", "the native run calls custom functions differently: " + output
 	}
 	if !strings.Contains(output, "VERIF-") {
 		return "unsupported: replay test did not run: " + firstLineOf(output), output
